@@ -61,6 +61,10 @@ BAD = {
     "macro_too_many_args": [".macro two_r(a, b)", ".db a, b", ".endm", "two_r(1, 2, 3)"],
     "macro_no_close_paren": [".macro two_s(a, b)", ".db a, b", ".endm", "two_s(1, 2"],
     "macro_args_missing": [".macro two_t(a, b)", ".db a, b", ".endm", "two_t"],
+    "duplicate_define": [".define DUP_Q 1", ".define DUP_Q 2"],
+    "duplicate_macro": [".macro dup_m_q", ".db 1", ".endm", ".macro dup_m_q", ".db 2", ".endm"],
+    "duplicate_define_macro": [".define DUP_R 1", ".macro DUP_R", ".db 2", ".endm"],
+    "operand_paren_commas": ["  mov.w 2(r5,,r6"],
 }
 
 # combinations that can yield a VALID program and are therefore not corruptions
@@ -68,7 +72,9 @@ EXCLUDE = {("else_without_if", "if1"), ("else_without_if", "ifdef_else"), ("endi
            ("endif_without_if", "ifdef_else"), ("duplicate_label", "scope"), ("macro_unterminated", "macro"),
            ("label_is_macro", "macro"), ("label_is_macro", "scope"), ("endr_without_repeat", "repeat"),
            ("macro_too_few_args", "macro"), ("macro_too_many_args", "macro"), ("macro_no_close_paren", "macro"),
-           ("macro_args_missing", "macro"),
+           ("macro_args_missing", "macro"), ("duplicate_macro", "macro"), ("duplicate_define_macro", "macro"),
+           # a block assembled twice defines its names twice
+           ("duplicate_define", "repeat"), ("duplicate_macro", "repeat"), ("duplicate_define_macro", "repeat"),
            # a macro body is stored, not assembled, until invoked; structural directives in it are out of scope
            ("comment_unterminated", "macro"), ("quote_unterminated", "macro")}
 
